@@ -147,6 +147,8 @@ def main():
                 rec["counterexample"] = {"sites": [{"line": f[0], "what": f[1]} for f in fs[:10]]}
             section["obligations"].append(rec)
         section["notes"].extend("%s: %s" % (name, n) for n in sorted(set(ex.notes))[:12])
+        if ex.unknown_heads:
+            section["notes"].append("%s: term heads without a provenance rule (result may alias any argument): %s" % (name, ", ".join(sorted(ex.unknown_heads))[:400]))
     if a.prop in ("C12", "C13", "ALL") and want is None:
         closed_ownership_scan(section)
     section["trusted"].append("frame engine: provenance of symbolic terms; calls without a contract are treated as pure and fresh (listed in notes); "
